@@ -46,7 +46,9 @@ class C04(Base):
         r = Rng(seed * 1000 + 4)
         k = self.n(tier, 1, 10)
         lines = scen.fee_grid(r.fork(1), 300 * k) + scen.fee_lists(r.fork(2), 400 * k)
-        return [Stream("S1-fee-arithmetic", lines, fields={"pure": ["_"]}, oracle=c04_oracle)]
+        return [Stream("S1-fee-arithmetic", lines, fields={"pure": ["_"]}, oracle=c04_oracle),
+                Stream("S3-fee-action-end-to-end", c04_e2e_lines(r.fork(3), 150 * k), fields={"recv": ["ack", "bal"]}, oracle=c04_e2e_oracle),
+                Stream("S2-fee-controller-component", c04_comp_lines(r.fork(4), 300 * k), fields={"acth": ["res", "dst", "bal"]}, oracle=c04_comp_oracle)]
 
 
 def c04_expected(line):
@@ -166,6 +168,159 @@ def c04_oracle(steps):
         exp = c04_expected(s.line)
         if exp is not None and exp != s.impl_raw:
             out.append((s.i, "fee-rule: expected %s got %s" % (exp[:160], s.impl_raw[:160])))
+    return out
+
+
+def c04_e2e_lines(r, n):
+    """the real fee action against the real bank: boundary totals, both types, repeated recipients, bad entries"""
+    import scen as _s
+    from gen import U
+    from proto import orb_pkt, int_fwd, fee_action
+    lines, toks = _s.base_setup(with_hyp=False)
+    good, other = U[0], U[1]
+    dest = U[5]
+
+    def act(entries):
+        infos = []
+        for rec, kind, val in entries:
+            infos.append({"recipient": rec, "basis_points": {"value": val}} if kind == "b" else {"recipient": rec, "amount": {"value": str(val)}})
+        return {"id": "ACTION_FEE", "attributes": {"@type": _s.FEE_URL, "fees_info": infos}}
+    cases = []
+    for A in (1, 2, 100, 9999, 10000, 10001, 10 ** 6, 2 ** 64 + 1):
+        for k in (-1, 0, 1):
+            t = A + k
+            if t > 0:
+                cases.append((A, [(good, "a", t)]))
+                if t > 1:
+                    cases.append((A, [(good, "a", t - 1), (other, "a", 1)]))
+        cases += [(A, [(good, "b", 10000)]), (A, [(good, "b", 9999), (good, "b", 1)]), (A, [(good, "b", 5000), (other, "b", 5000)]), (A, [(good, "b", 9999)]),
+                  (A, [(good, "b", 1)] * 5), (A, [(good, "b", 1)] * 6), (A, []), (A, [(good, "b", 3333), (good, "b", 3333), (good, "a", 1)]),
+                  (A, [(good, "b", 2500), (other, "a", A // 4 or 1), (good, "b", 2500)])]
+    for bad in [(good, "b", 0), (good, "b", 10001), (good, "a", 0), (good, "a", "-1"), (good, "a", "x"), ("", "b", 1), ("", "a", 1), ("noble1xyz", "a", 1),
+                (good.upper(), "a", 1), ("cosmos1qyqszqgpqyqszqgpqyqszqgpqyqszqgpjnp7du", "a", 1), (good, "a", str(2 ** 256))]:
+        cases.append((10 ** 6, [bad]))
+        cases.append((10 ** 6, [(other, "b", 100), bad]))
+    for _ in range(n):
+        A = r.choice([1, 7, 100, 10 ** 4, 10 ** 6, 10 ** 9, 10 ** 18]) if r.chance(1, 2) else r.range(1, 10 ** 12)
+        es = []
+        for _ in range(r.range(0, 6)):
+            rec = r.choice(U[:4])
+            if r.chance(1, 2):
+                es.append((rec, "b", r.choice([1, 10, 100, 2500, 5000, 9999, 10000]) if r.chance(1, 2) else r.range(1, 10000)))
+            else:
+                es.append((rec, "a", r.choice([1, A // 2 or 1, A, A - 1 or 1, A + 1]) if r.chance(1, 2) else r.range(1, max(1, A))))
+        cases.append((A, es))
+    for A, es in cases:
+        lines.append(orb_pkt("recv", A, int_fwd(dest), [act(es)], denom=r.choice(["uusdc", "uother"])))
+    return lines
+
+
+def c04_comp_lines(r, n):
+    """the fee action through the executor directly (component level): what HandlePacket itself returns"""
+    lines = ["setup -"]
+    for l in scen.fee_lists(r, n):
+        f = l.split(" ")
+        # pure fees <amount> <denom> <k> … -> acth <amount> <denom> 1 <k> …
+        if int(f[2]) > 0 and int(f[2]) < 2 ** 255:
+            lines.append("acth %s %s 1 %s" % (f[2], f[3], " ".join(f[4:])))
+    return lines
+
+
+def c04_comp_oracle(steps):
+    out = []
+    for s in steps:
+        if s.op != "acth":
+            continue
+        f = s.line.split(" ")
+        exp = c04_expected("pure fees %s %s %s" % (f[1], f[2], " ".join(f[4:])))
+        if exp is None:
+            continue
+        res = s.impl.get("res")
+        if res == "panic":
+            out.append((s.i, "panic: fee action panicked"))
+        elif exp.startswith("err"):
+            if res == "ok":
+                out.append((s.i, "fee-not-refused: the rule refuses (%s) but the fee action succeeded, leaving %s" % (exp, s.impl.get("dst"))))
+        elif res == "ok":
+            total = int(exp.split(";")[0].split("=")[1])
+            left = int(s.impl.get("dst", "-:0").split(":")[1])
+            if left != int(f[1]) - total:
+                out.append((s.i, "fee-forwarded: amount left %d, A minus fees is %d" % (left, int(f[1]) - total)))
+            want = {}
+            for e in exp.split(";")[1].split(","):
+                if e:
+                    a, v = e.split("=")
+                    want[a] = want.get(a, 0) + int(v)
+            delta = parse_delta(s.impl.get("bal"))
+            dn = unhx(f[2]).decode()
+            for a, v in want.items():
+                if delta.get((a, dn), 0) != v and a != ORBHEX:
+                    out.append((s.i, "fee-amount: recipient %s credited %d, the rule gives %d" % (a[:8], delta.get((a, dn), 0), v)))
+    return out
+
+
+def c04_e2e_oracle(steps):
+    out = []
+    for s in steps:
+        if s.op != "recv":
+            continue
+        p = packet_of(s.line)
+        if not p["payload"] or not receiver_is_orbiter(p):
+            continue
+        A = parse_go_int(p["ftpd"]["amount"])
+        dn = p["ftpd"]["denom"][len(p["src_port"] + "/" + p["src_chan"] + "/"):]
+        acts = p["payload"].get("pre_actions") or []
+        if len(acts) != 1:
+            continue
+        infos = acts[0]["attributes"].get("fees_info") or []
+        refuse = None
+        credits = {}
+        total = 0
+        if len(infos) > 5:
+            refuse = "more than five entries"
+        for fi in infos:
+            if refuse:
+                break
+            if "basis_points" in fi:
+                v = fi["basis_points"]["value"]
+                if v == 0 or v > 10000:
+                    refuse = "bps out of range"
+            else:
+                iv = parse_go_int(fi["amount"]["value"])
+                if iv is None or iv <= 0 or iv >= 2 ** 256:
+                    refuse = "fixed amount not a positive integer"
+            if decode_addr(fi.get("recipient", "")) is None:
+                refuse = refuse or "invalid recipient"
+        if not refuse:
+            for fi in infos:
+                if "basis_points" in fi:
+                    amt = A * fi["basis_points"]["value"] // 10000
+                else:
+                    amt = parse_go_int(fi["amount"]["value"])
+                if amt > 0:
+                    total += amt
+                    a = decode_addr(fi["recipient"]).hex()
+                    credits[a] = credits.get(a, 0) + amt
+            if total >= A:
+                refuse = "total fee %d not strictly below the amount %d" % (total, A)
+        ack = s.impl.get("ack")
+        if refuse:
+            if ack == "ok":
+                out.append((s.i, "fee-not-refused: %s, but the transfer succeeded" % refuse))
+            elif s.impl.get("bal") != "-":
+                out.append((s.i, "fee-paid-on-refusal: refused (%s) but balances changed" % refuse))
+            continue
+        if ack != "ok":
+            continue   # other reasons may refuse the transfer (none expected here; the model comparison covers it)
+        delta = parse_delta(s.impl.get("bal"))
+        dest = decode_addr(p["payload"]["forwarding"]["attributes"]["recipient"]).hex()
+        for a, v in credits.items():
+            got = delta.get((a, dn), 0) - ((A - total) if a == dest else 0)
+            if got != v:
+                out.append((s.i, "fee-amount: recipient %s credited %d %s, the rule gives %d (A=%d)" % (a[:8], got, dn, v, A)))
+        fwd = delta.get((dest, dn), 0) - credits.get(dest, 0)
+        if fwd != A - total:
+            out.append((s.i, "fee-forwarded: forwarded %d, A minus fees is %d" % (fwd, A - total)))
     return out
 
 
@@ -462,7 +617,7 @@ class C14(Base):
 def module_addrs():
     import os
     try:
-        f = _json.load(open(os.path.join(scen.VERIF, ".cache", "facts.json")))
+        f = _json.load(open(os.path.join(os.environ.get("VERIF_CACHE", os.path.join(scen.VERIF, ".cache")), "facts.json")))
         import base64
         return {k: base64.b64decode(v).hex() for k, v in f["Bytes"].items()}
     except Exception:
